@@ -7,14 +7,14 @@ import tempfile
 from harness.runner import BCheck
 
 LEVEL = "exploration"
-LEVEL_TEXT = ("Bounded stand-in (loop-body contracts of run_split are planned deductive targets): the real run_split on generated FASTQ and BAM inputs (duplicate names, "
+LEVEL_TEXT = ("Deductive part (vcgen/z3, all inputs): a LOOP-BODY contract for run_split's single pass (the loop and its free variables verified as a unit; initialisation and the code around it are not): every requested output holds exactly the records the statement assigns to it, in input order (ghost counting functions NGO/SRC), nothing else is appended, and the per-output length histogram counts the reads written to that output - the latter is discharged for runs without --add-untagged and fails on the --add-untagged path (known finding F7b). Bounded stand-in: the real run_split on generated FASTQ and BAM inputs (duplicate names, "
               "reads without sequence in BAM, 2- and 4-column lists with/without header, 'none' entries, names absent from the reads, reads absent from the list, ploidy 2-4, "
               "every combination of requested outputs, --add-untagged, --discard-unknown-reads, --only-largest-block, histogram) against the partition recomputed "
               "independently from the statement: each output holds exactly the expected records, unmodified and in input order; the histogram columns sum to the number "
               "of reads written per requested output.")
 LEVEL_NOTE = "Seeded sampling over option combinations; haplotag lists name each read at most once."
 TECHNIQUE = "bounded runtime contract on run_split against an independently recomputed partition (FASTQ text / BAM records)"
-D_MODULES = []
+D_MODULES = ["contracts.split_py"]
 EXPLANATION = LEVEL_TEXT
 TRUSTED_BASE = ["pysam for reading the BAM outputs back"]
 ASSUMPTIONS = ["each read name occurs at most once in the haplotag list"]
